@@ -16,6 +16,8 @@ spec/AsNumTrace.tla:
   placeholder (see codes_projected).
   "cli" / "clicfg": the command-line entry point main() with -n LIST / a config file as-numbers=LIST;
   each line operation is one run of main() on a file holding `text` (see run_cli).
+  "fileresv" / "cliresv": FileAnonymizer(..., reserved_words=LIST) / main with -r LIST: the listed numbers are
+  user reserved words as well (reserved words protect words and secrets, not listed AS numbers).
 
 Nothing here decides anything: text becomes character codes, numbers become
 digit lists, exceptions become outcomes; TLC judges.
@@ -76,6 +78,8 @@ def construct(kind, lst, salt):
         return FileAnonymizer(anon_pwd=False, anon_ip=True, salt=salt, as_numbers=list(lst))
     if kind == "fileundo":      # AS numbers together with address undo (--undo)
         return FileAnonymizer(anon_pwd=False, anon_ip=False, undo_ip_anon=True, salt=salt, as_numbers=list(lst))
+    if kind == "fileresv":      # every listed number is also a user reserved word
+        return FileAnonymizer(anon_pwd=False, anon_ip=False, salt=salt, as_numbers=list(lst), reserved_words=list(lst))
     if kind == "iponly":        # address stage only, no AS numbers (produces already-anonymized text)
         return FileAnonymizer(anon_pwd=False, anon_ip=True, salt=salt)
     return FileAnonymizer(anon_pwd=False, anon_ip=False, salt=salt, as_numbers=list(lst))
@@ -85,8 +89,8 @@ def construct(kind, lst, salt):
 # C11 speaks about digit runs OUTSIDE addresses; what the address stage does to an address is
 # C01-C06's business.  For instances whose address stage is on, every address token of the input
 # line AND of the output line is replaced by ONE placeholder code before TLC sees the line, so R's
-# existing clauses judge exactly the rest of the line (and the digit '.' digit don't-care of R is
-# not triggered by dotted quads).  An address token is: a white-space delimited token, minus
+# existing clauses judge exactly the rest of the line (the octets of a rewritten dotted quad are
+# not unlisted numbers that "changed").  An address token is: a white-space delimited token, minus
 # trailing ',' / ';' and minus a '/suffix', that `ipaddress.ip_address` accepts (so the numbers
 # between the dots are <= 255 and a listed number of 5+ digits can never be part of one).
 # The generator writes addresses only as such tokens.
@@ -153,7 +157,7 @@ class NoOutput(Exception):
     """the command line returned normally but wrote no output file"""
 
 
-CLI_KINDS = ("cli", "clicfg")
+CLI_KINDS = ("cli", "clicfg", "cliresv")
 
 
 def run_cli(kind, obj, text):
@@ -170,6 +174,8 @@ def run_cli(kind, obj, text):
         argv = ["-i", inp, "-o", outp, "-s", obj["salt"]]
         if kind == "cli":
             argv += ["-n", ",".join(obj["list"])]
+        elif kind == "cliresv":      # every listed number is also a user reserved word (-r)
+            argv += ["-n", ",".join(obj["list"]), "-r", ",".join(obj["list"])]
         else:
             cfg = os.path.join(d, "netconan.conf")
             with open(cfg, "w", encoding="utf-8") as fh:
